@@ -213,7 +213,7 @@ package lexer
 //@ func (l *Lexer) embeddedCodeToken
 //@   requires LexInv(l) && l.char != 0
 //@   ensures LexInv(l) && l.pos > old(l.pos) && l.startPos == old(l.pos) && TokSpan(l, result)
-//@   ensures result.Type != token.EOF
+//@   ensures result.Type != token.EOF && token.ILLEGAL <= result.Type && result.Type <= token.DUMP
 //@   ensures isFixedSpelling(result.Type) || result.Type == token.IDENT || result.Type == token.INT || result.Type == token.FLOAT
 //@        ==> textIs(result.Literal, l.input, old(l.pos), l.pos)
 //@   modifies @POS, @START, l.countCurlyBraces, l.countDirectiveParentheses, l.isDirective, l.isHTML
@@ -266,6 +266,10 @@ package lexer
 //@   ensures LexInv(l) && TokSpan(l, result)
 //@   ensures old(l.pos) <= l.startPos && l.startPos <= l.pos
 //@   ensures ordered: result.Type != token.EOF ==> l.pos > old(l.pos) && l.startPos <= l.pos-1
+//@   ensures token.ILLEGAL <= result.Type && result.Type <= token.DUMP
+//@   ensures result.Type != token.EOF ==> old(l.pos) < len(l.input)
+//@   ensures result.Type == token.EOF ==> l.char == 0
+//@   ensures old(l.char) == 0 ==> result.Type == token.EOF && l.pos == old(l.pos)
 //@   goal text-mode-html: old(l.isHTML) && old(l.char) != 0 && !bracesAt(l.input, old(l.pos))
 //@        && !(dirKeyAt(l.input, old(l.pos)) && byteAt(l.input, old(l.pos)-1) != '\\') ==> result.Type == token.HTML
 //@   goal text-mode-code: old(l.isHTML) && result.Type != token.HTML && result.Type != token.EOF
